@@ -2,7 +2,7 @@
 Assignments restricted to the variables `1..N`, and the fact that a well-formed formula only
 looks at them — the setting of the "exactly one assignment per object" statements.
 -/
-import Lemmas.FamBasic
+import Lemmas.C01Basic
 namespace Cnfgen.Fam
 open Cnfgen
 
